@@ -558,8 +558,9 @@ func (dp *DataProcessor) applyHavingWithCaseExpression(results []map[string]any)
 	}
 	expression, err := expr.NewExpression(exprToUse)
 	if err != nil {
+		// a predicate that cannot be evaluated accepts nothing (it must not silently accept everything)
 		dp.stream.log.Error("having filter error (CASE expression): %v", err)
-		return results
+		return nil
 	}
 
 	var filteredResults []map[string]any
@@ -624,8 +625,9 @@ func (dp *DataProcessor) applyHavingWithCondition(results []map[string]any) []ma
 	// Create HAVING condition
 	havingFilter, err := condition.NewExprCondition(processedHaving)
 	if err != nil {
+		// a predicate that cannot be evaluated accepts nothing (it must not silently accept everything)
 		dp.stream.log.Error("having filter error: %v", err)
-		return results
+		return nil
 	}
 
 	var filteredResults []map[string]any
